@@ -389,7 +389,23 @@ pub fn inputs_c17(r: &mut Rng, n: usize, _tier: &str, out: &mut dyn Write) {
         }
         .clamp(-3_700_000 * DAY, 3_700_000 * DAY);
         let es = format!("{}:{}", dstr(e), ts);
-        match r.below(12) {
+        match r.below(14) {
+            12 => {
+                // the same views on ET/TDB epochs (within +/- 10 000 years), through the metamorphic relation
+                let dy = *r.pick(&["ET", "TDB"]);
+                let v = (r.range_i64(-3_600_000, 3_600_000) as i128) * DAY + small_off(r) + if r.chance(1, 2) { r.below(DAY as u64) as i128 } else { 0 };
+                let name = if r.chance(1, 4) { *r.pick(&ACCD) } else { *r.pick(&ACCF) };
+                writeln!(out, "acc_via {} {}:{}", name, dstr(v), dy).unwrap()
+            }
+            13 => {
+                // float-valued ET/TDB views of epochs in any of the nine scales
+                const ALL9: [&str; 9] = ["TAI", "TT", "UTC", "GPST", "GST", "BDT", "QZSST", "ET", "TDB"];
+                const REL: [&str; 8] = ["to_et_seconds", "to_tdb_seconds", "to_jde_et_days", "to_jde_tdb_days", "to_tdb_days_since_j2000",
+                    "to_tdb_centuries_since_j2000", "to_et_days_since_j2000", "to_et_centuries_since_j2000"];
+                let ts9 = *r.pick(&ALL9);
+                let inst = (r.range_i64(-3_600_000, 3_600_000) as i128) * DAY + small_off(r) + if r.chance(1, 2) { r.below(DAY as u64) as i128 } else { 0 };
+                writeln!(out, "accf_rel {} {}:{}", *r.pick(&REL), dstr(inst - ref_off(ts9)), ts9).unwrap()
+            }
             0 | 1 | 2 => writeln!(out, "acc17 {} {}", *r.pick(&ACCD), es).unwrap(),
             3 | 4 | 5 | 6 => writeln!(out, "accf {} {}", *r.pick(&ACCF), es).unwrap(),
             7 => {
@@ -426,7 +442,31 @@ pub fn inputs_c17(r: &mut Rng, n: usize, _tier: &str, out: &mut dyn Write) {
 }
 
 pub fn inputs_c12(r: &mut Rng, n: usize, _tier: &str, out: &mut dyn Write) {
-    for _ in 0..n {
+    for k in 0..n {
+        if k % 8 == 7 {
+            // ET/TDB operands: the statement holds for instants more than 100 ns apart.  One operand in ET or
+            // TDB, the other in any of the nine scales; the second operand is placed with the library's own
+            // conversion (only to AIM the pair: the verdict comes from the closed forms) at a gap of
+            // +/-(170 ns .. 2 us), up to a second, up to a day, or unrelated.
+            const ALL9: [&str; 9] = ["TAI", "TT", "UTC", "GPST", "GST", "BDT", "QZSST", "ET", "TDB"];
+            let dy = *r.pick(&["ET", "TDB"]);
+            let other = *r.pick(&ALL9);
+            let (sa, sb) = if r.chance(1, 2) { (dy, other) } else { (other, dy) };
+            let inst = (r.range_i64(-3_600_000, 3_600_000) as i128) * DAY + small_off(r);
+            let av = inst - ref_off(sa);
+            let ea = s2e(&format!("{}:{}", dstr(av), sa));
+            let sgn: i128 = if r.chance(1, 2) { 1 } else { -1 };
+            let gap = sgn * match r.below(5) {
+                0 => 170 + r.below(200) as i128,
+                1 => 170 + r.below(2000) as i128,
+                2 => r.below(SEC as u64) as i128 + 170,
+                3 => r.below(DAY as u64) as i128 + 170,
+                _ => (r.range_i64(-36525, 36525) as i128) * DAY,
+            };
+            let eb = ea.to_time_scale(s2ts(sb)) + Duration::from_total_nanoseconds(gap);
+            writeln!(out, "ecmp_dyn {} {}", e2s(ea), e2s(eb)).unwrap();
+            continue;
+        }
         let a = *r.pick(&NONDYN);
         let b = match r.below(3) {
             0 => a,
@@ -484,9 +524,32 @@ pub fn inputs_c12(r: &mut Rng, n: usize, _tier: &str, out: &mut dyn Write) {
 
 pub fn inputs_c15(r: &mut Rng, n: usize, tier: &str, out: &mut dyn Write) {
     let cap: i128 = if tier == "thorough" { 20000 } else { 300 };
-    for _ in 0..(n / 20).max(1) {
-        let a = *r.pick(&NONDYN);
-        let b = if r.chance(2, 3) { a } else { *r.pick(&NONDYN) };
+    // "millions of items": a few long series per run (count, last item and strict increase are observed)
+    if n >= 1000 {
+        for j in 0..3 {
+            let a = *r.pick(&NONDYN);
+            let b = if j == 0 { a } else { *r.pick(&NONDYN) };
+            let count: i128 = 1_000_000 + r.below(if j == 2 { 4_000_000 } else { 1_000_000 }) as i128;
+            let step: i128 = match j {
+                0 => 1,
+                1 => SEC + 1,
+                _ => r.below(3600 * SEC as u64) as i128 + 1,
+            };
+            // start a few items before a leap second / century boundary so that the series runs across it
+            let (t, _d) = *r.pick(&leap_ts());
+            let start = match j {
+                0 => t * SEC - 500_000 - ref_off(a),
+                1 => NPC * (r.range_i64(-20, 20) as i128) - 1000 * step,
+                _ => (r.range_i64(-1_000_000, 1_000_000) as i128) * DAY + r.below(DAY as u64) as i128,
+            };
+            let span = count * step + *r.pick(&[0i128, 1, -1]);
+            writeln!(out, "series_long {} {}:{} {} {} {}", r.below(2), dstr(start), a, dstr(span), b, dstr(step)).unwrap();
+        }
+    }
+    for k in 0..(n / 20).max(1) {
+        // every 10th series starts in ET or TDB (end in the same scale: the items are plain arithmetic on the elapsed time)
+        let a = if k % 10 == 9 { *r.pick(&["ET", "TDB"]) } else { *r.pick(&NONDYN) };
+        let b = if a == "ET" || a == "TDB" || r.chance(2, 3) { a } else { *r.pick(&NONDYN) };
         let start = match r.below(4) {
             0 => epoch_total(r, a),
             _ => {
@@ -566,7 +629,8 @@ pub fn inputs_c20(r: &mut Rng, n: usize, _tier: &str, out: &mut dyn Write) {
     const W: i128 = 7 * DAY;
     const ALL9: [&str; 9] = ["TAI", "TT", "UTC", "GPST", "GST", "BDT", "QZSST", "ET", "TDB"];
     for _ in 0..n {
-        let ts = *r.pick(&NONDYN);
+        // week / time of week are plain arithmetic on the elapsed time: all nine scales
+        let ts = *r.pick(&ALL9);
         match r.below(13) {
             10 | 11 | 12 => {
                 // (year, day of year) -> epoch -> (year, day of year), years 0001-9999, all nine scales
@@ -685,6 +749,52 @@ fn opt_f(o: Option<f64>) -> String {
     }
 }
 
+fn accf_call(name: &str, e: &Epoch) -> Option<f64> {
+    Some(match name {
+        "to_mjd_tai_days" => e.to_mjd_tai_days(),
+        "to_mjd_tai_seconds" => e.to_mjd_tai_seconds(),
+        "to_mjd_utc_days" => e.to_mjd_utc_days(),
+        "to_mjd_utc_seconds" => e.to_mjd_utc_seconds(),
+        "to_jde_tai_days" => e.to_jde_tai_days(),
+        "to_jde_tai_seconds" => e.to_jde_tai_seconds(),
+        "to_jde_utc_days" => e.to_jde_utc_days(),
+        "to_jde_utc_seconds" => e.to_jde_utc_seconds(),
+        "to_tt_seconds" => e.to_tt_seconds(),
+        "to_tt_days" => e.to_tt_days(),
+        "to_tt_centuries_j2k" => e.to_tt_centuries_j2k(),
+        "to_jde_tt_days" => e.to_jde_tt_days(),
+        "to_mjd_tt_days" => e.to_mjd_tt_days(),
+        "to_unix_seconds" => e.to_unix_seconds(),
+        "to_unix_milliseconds" => e.to_unix_milliseconds(),
+        "to_unix_days" => e.to_unix_days(),
+        "to_tai_seconds" => e.to_tai_seconds(),
+        "to_tai_days" => e.to_tai_days(),
+        "to_utc_seconds" => e.to_utc_seconds(),
+        "to_utc_days" => e.to_utc_days(),
+        "to_gpst_seconds" => e.to_gpst_seconds(),
+        "to_gpst_days" => e.to_gpst_days(),
+        _ => return None,
+    })
+}
+
+fn acc17_call(name: &str, e: &Epoch) -> Option<Duration> {
+    Some(match name {
+        "to_jde_tai_duration" => e.to_jde_tai_duration(),
+        "to_jde_utc_duration" => e.to_jde_utc_duration(),
+        "to_jde_tt_duration" => e.to_jde_tt_duration(),
+        "to_mjd_tt_duration" => e.to_mjd_tt_duration(),
+        "to_tt_since_j2k" => e.to_tt_since_j2k(),
+        _ => return None,
+    })
+}
+
+fn via_target(name: &str) -> TimeScale {
+    if name.contains("_tai") { TimeScale::TAI }
+    else if name.contains("_utc") || name.contains("unix") { TimeScale::UTC }
+    else if name.contains("_tt") { TimeScale::TT }
+    else { TimeScale::GPST }
+}
+
 pub fn exec(op: &str, a: &[&str]) -> Option<String> {
     match op {
         // ---- C04
@@ -792,46 +902,35 @@ pub fn exec(op: &str, a: &[&str]) -> Option<String> {
             })
         }
         // ---- C17
-        "acc17" => {
+        "acc17" => acc17_call(a[0], &s2e(a[1])).and_then(okd),
+        // metamorphic: a view of an epoch equals the same view of its re-expression in the view's own scale
+        // (used with ET/TDB epochs, whose conversion is C07's business)
+        "acc_via" => {
             let e = s2e(a[1]);
-            okd(match a[0] {
-                "to_jde_tai_duration" => e.to_jde_tai_duration(),
-                "to_jde_utc_duration" => e.to_jde_utc_duration(),
-                "to_jde_tt_duration" => e.to_jde_tt_duration(),
-                "to_mjd_tt_duration" => e.to_mjd_tt_duration(),
-                "to_tt_since_j2k" => e.to_tt_since_j2k(),
-                _ => return None,
-            })
+            let c = e.to_time_scale(via_target(a[0]));
+            if let Some(d) = acc17_call(a[0], &e) {
+                Some(format!("ok {} {}", d2s(d), d2s(acc17_call(a[0], &c)?)))
+            } else {
+                Some(format!("ok {} {}", f2s(accf_call(a[0], &e)?), f2s(accf_call(a[0], &c)?)))
+            }
         }
-        "accf" => {
+        // the float-valued ET/TDB views against the duration-valued view they are derived from
+        "accf_rel" => {
             let e = s2e(a[1]);
-            let v = match a[0] {
-                "to_mjd_tai_days" => e.to_mjd_tai_days(),
-                "to_mjd_tai_seconds" => e.to_mjd_tai_seconds(),
-                "to_mjd_utc_days" => e.to_mjd_utc_days(),
-                "to_mjd_utc_seconds" => e.to_mjd_utc_seconds(),
-                "to_jde_tai_days" => e.to_jde_tai_days(),
-                "to_jde_tai_seconds" => e.to_jde_tai_seconds(),
-                "to_jde_utc_days" => e.to_jde_utc_days(),
-                "to_jde_utc_seconds" => e.to_jde_utc_seconds(),
-                "to_tt_seconds" => e.to_tt_seconds(),
-                "to_tt_days" => e.to_tt_days(),
-                "to_tt_centuries_j2k" => e.to_tt_centuries_j2k(),
-                "to_jde_tt_days" => e.to_jde_tt_days(),
-                "to_mjd_tt_days" => e.to_mjd_tt_days(),
-                "to_unix_seconds" => e.to_unix_seconds(),
-                "to_unix_milliseconds" => e.to_unix_milliseconds(),
-                "to_unix_days" => e.to_unix_days(),
-                "to_tai_seconds" => e.to_tai_seconds(),
-                "to_tai_days" => e.to_tai_days(),
-                "to_utc_seconds" => e.to_utc_seconds(),
-                "to_utc_days" => e.to_utc_days(),
-                "to_gpst_seconds" => e.to_gpst_seconds(),
-                "to_gpst_days" => e.to_gpst_days(),
+            let (f, d) = match a[0] {
+                "to_et_seconds" => (e.to_et_seconds(), e.to_et_duration()),
+                "to_tdb_seconds" => (e.to_tdb_seconds(), e.to_tdb_duration()),
+                "to_jde_et_days" => (e.to_jde_et_days(), e.to_jde_et_duration()),
+                "to_jde_tdb_days" => (e.to_jde_tdb_days(), e.to_jde_tdb_duration()),
+                "to_tdb_days_since_j2000" => (e.to_tdb_days_since_j2000(), e.to_tdb_duration()),
+                "to_tdb_centuries_since_j2000" => (e.to_tdb_centuries_since_j2000(), e.to_tdb_duration()),
+                "to_et_days_since_j2000" => (e.to_et_days_since_j2000(), e.to_et_duration()),
+                "to_et_centuries_since_j2000" => (e.to_et_centuries_since_j2000(), e.to_et_duration()),
                 _ => return None,
             };
-            Some(format!("ok {}", f2s(v)))
+            Some(format!("ok {} {}", f2s(f), d2s(d)))
         }
+        "accf" => accf_call(a[0], &s2e(a[1])).map(|v| format!("ok {}", f2s(v))),
         "from_mjd" => oke(Epoch::from_mjd_in_time_scale(s2f(a[1]), s2ts(a[0]))),
         "from_jde" => oke(Epoch::from_jde_in_time_scale(s2f(a[1]), s2ts(a[0]))),
         "from_unix_s" => oke(Epoch::from_unix_seconds(s2f(a[0]))),
@@ -934,6 +1033,12 @@ pub fn exec(op: &str, a: &[&str]) -> Option<String> {
             v.sort();
             Some(format!("ok {} {} {}", e2s(v[0]), e2s(v[1]), e2s(v[2])))
         }
+        "ecmp_dyn" => {
+            // (cmp, eq, reverse cmp, reverse eq, <, >)
+            let (x, y) = (s2e(a[0]), s2e(a[1]));
+            assert_eq!(Some(x.cmp(&y)), x.partial_cmp(&y));
+            Some(format!("ok {} {} {} {} {} {}", ord2s(x.cmp(&y)), (x == y) as u8, ord2s(y.cmp(&x)), (y == x) as u8, (x < y) as u8, (x > y) as u8))
+        }
         "ecmpconv" => {
             // (cmp, eq, reverse cmp, reverse eq, cmp with left converted, cmp with right converted, range contains)
             let (x, y, ts) = (s2e(a[0]), s2e(a[1]), s2ts(a[2]));
@@ -952,6 +1057,29 @@ pub fn exec(op: &str, a: &[&str]) -> Option<String> {
             ))
         }
         // ---- C15
+        "series_long" => {
+            let incl = a[0] == "1";
+            let start = s2e(a[1]);
+            let end = (start + s2d(a[2])).to_time_scale(s2ts(a[3]));
+            let step = s2d(a[4]);
+            let it = if incl { TimeSeries::inclusive(start, end, step) } else { TimeSeries::exclusive(start, end, step) };
+            let mut count = 0usize;
+            let mut last: Option<Epoch> = None;
+            let mut ordered = true;
+            for e in it {
+                if let Some(p) = last {
+                    if !(p.duration < e.duration) || e.time_scale != start.time_scale {
+                        ordered = false;
+                    }
+                }
+                last = Some(e);
+                count += 1;
+                if count > 20_000_000 {
+                    break;
+                }
+            }
+            Some(format!("ok {} {} {}", count, last.map(e2s).unwrap_or("-".to_string()), b2s(ordered)))
+        }
         "series" => {
             let incl = a[0] == "1";
             let start = s2e(a[1]);
